@@ -16,7 +16,7 @@ fn networks(cfg: i64) -> Vec<Vec<(&'static str, &'static str, u8)>> {
                   vec![("volvo", "d7e", 0x00), ("laixer", "vcu", 0x12), ("laixer", "hcu", 0x4a)]],
         2 => vec![vec![("laixer", "hcu", 0x4a), ("kübler", "encoder", 0x6a), ("laixer", "hcu", 0x4b)]],
         3 => vec![vec![("kübler", "inclinometer", 0x7a), ("j1939", "ecu", 0x20)]],
-        _ => vec![vec![("laixer", "hcu", 0x4a), ("laixer", "vcu", 0x12)]],   // cfg 4: with 100 ms timeouts (silent units); cfg 5: congested bus at start-up
+        _ => vec![vec![("laixer", "hcu", 0x4a), ("laixer", "vcu", 0x12)]],   // cfg 4: with 100 ms timeouts (silent units); cfg 5: congested bus at start-up; cfg 6: bus stalled for 300 ms right at the signal
     }
 }
 
@@ -67,8 +67,13 @@ pub fn exec(c: &[i64]) -> Vec<i64> {
         for j in 0..burst { let mut f = crate::session::header(0x20, 3); let v = (j as u16).to_be_bytes(); f.extend([5, v[0], v[1]]); let _ = s.write_all(&f); }
     } }
     if !congested { for b in buses.iter_mut() { b.pump(); } }
+    // cfg 6: the bus stops draining just before the termination request and recovers 300 ms later - far
+    // inside the stop budget; the teardown frames must still arrive
+    let stalled = cfg == 6;
+    if stalled { for b in &buses { b.congest(); } std::thread::sleep(Duration::from_millis(30)); }
     let t0 = Instant::now();
     unsafe { libc::kill(child.id() as i32, sig); }
+    if stalled { std::thread::sleep(Duration::from_millis(300)); for b in &buses { b.release(); } }
     // a bus that was congested while the daemon started (the tasks are still inside setup) drains shortly after the signal
     if congested { std::thread::sleep(Duration::from_millis(150)); for b in &buses { b.release(); } }
     let mut status = None;
@@ -101,10 +106,10 @@ pub fn exec(c: &[i64]) -> Vec<i64> {
 pub fn gen(o: &Opts, sink: &mut dyn FnMut(Vec<i64>, String)) {
     let mut k: u64 = 0;
     let mut rng = Rng::new(o.seed, 16);
-    let n = if o.tier_thorough { 200 } else { 16 };
+    let n = if o.tier_thorough { 210 } else { 21 };
     for j in 0..n {
         k += 1; if !mine(o, k) { continue; }
-        let cfg = (j % 6) as i64;
+        let cfg = (j % 7) as i64;
         let delay = *rng.pick(&[0i64, 5, 50, 500, 12, 27]);
         let delay = if !o.tier_thorough && delay == 500 && j % 8 != 0 { 50 } else { delay };
         let delay = if cfg == 4 { 300 } else { delay };     // silent units: longer than their timeout
